@@ -202,9 +202,84 @@ def groups(tier, seed):
                 chunk = []
         if chunk:
             yield {'tool': tool, 'lists': chunk}
+    yield from combo_groups()
+
+
+COMBO_HG = [[('glob', 'build')], [('regexp', r'\.o$')], [('glob', 'src/sub')], [('regexp', '^build$')], [('glob', '*.c'), ('glob', 'docs')]]
+COMBO_DOCKER = [['build', '!build/keep.o'], ['*', '!src', '!build/keep.o'], ['src', '!src/sub', '!src/sub/c.o'], ['build/', '!build/deep', '!build/deep/x.o'], ['**/name', '!docs/name']]
+COMBO_GIT = [['build/', '!build/keep.o'], ['*.o', '!keep.o'], ['src/sub/']]
+
+
+def combo_groups():
+    # two kinds of ignore files in force on the same root: an entry is omitted when either tool's rules ignore it
+    for hi in range(len(COMBO_HG)):
+        for di in range(len(COMBO_DOCKER)):
+            yield {'tool': 'combo', 'hg': hi, 'docker': di, 'git': None}
+    for gi in range(len(COMBO_GIT)):
+        for di in range(len(COMBO_DOCKER)):
+            yield {'tool': 'combo', 'hg': None, 'docker': di, 'git': gi}
+        for hi in range(len(COMBO_HG)):
+            yield {'tool': 'combo', 'hg': hi, 'docker': None, 'git': gi}
+
+
+def eval_combo(env, group):
+    holder = env.newdir('c20c')
+    repo = os.path.join(holder, 'repo')
+    os.mkdir(repo)
+    core.materialise(repo, the_tree())
+    outs = []
+    try:
+        entries = sorted(p for p, n, l in core.walk_tree(the_tree()))
+        files, opts, ign = [], [], set()
+        if group['hg'] is not None:
+            os.mkdir(os.path.join(repo, '.hg'))
+            lst = COMBO_HG[group['hg']]
+            open(os.path.join(repo, '.hgignore'), 'w').write(render('hg', lst))
+            files.append('.hgignore')
+            opts.append('hgignore')
+        if group['docker'] is not None:
+            dl = COMBO_DOCKER[group['docker']]
+            open(os.path.join(repo, '.dockerignore'), 'w').write(render('docker', dl))
+            files.append('.dockerignore')
+            opts.append('dockerignore')
+        if group['git'] is not None:
+            subprocess.run(['git', 'init', '-q', repo], check=True, stdout=subprocess.DEVNULL, stderr=subprocess.DEVNULL, env=dict(os.environ, HOME=env.home, GIT_CONFIG_NOSYSTEM='1'))
+            gl = COMBO_GIT[group['git']]
+            open(os.path.join(repo, '.gitignore'), 'w').write(render('git', gl))
+            files.append('.gitignore')
+            opts.append('gitignore')
+        allents = entries + files
+        if group['hg'] is not None:
+            ign |= {e for e in allents if hg_ignored(COMBO_HG[group['hg']], e)}
+        if group['docker'] is not None:
+            ign |= {e for e in allents if docker_ignored(COMBO_DOCKER[group['docker']], e)}
+        if group['git'] is not None:
+            ign |= git_ignored(repo, allents)
+        for order in (opts, opts[::-1]):
+            for mode in ('', 'dfs'):
+                frm = '. ' + ' '.join(order) + (' ' + mode if mode else '')
+                o = env.run(['path from ' + frm + ' into list'], cwd=repo, timeout=20.0)
+                got = sorted(os.path.normpath(p) for p in o.rows() if not (os.path.normpath(p) == '.git' or os.path.normpath(p).startswith('.git/') or os.path.normpath(p) == '.hg'))
+                exp = sorted(e for e in allents if e not in ign)
+                case = dict(group, frm=frm)
+                r = {'case': case, 'layer': 'combo', 'nt': 0 < len(ign) < len(allents), 'trans': len(allents)}
+                if o.timeout or o.panicked or o.rc != 0 or o.err:
+                    r.update(status='viol', cls='combo:status', detail=dict(o.brief(), frm=frm), sig=('err',))
+                elif got != exp:
+                    r.update(status='viol', cls='combo:rows', sig=('rows', tuple(opts)),
+                             detail={'from': frm, 'hg': group['hg'] is not None and render('hg', COMBO_HG[group['hg']]), 'docker': group['docker'] is not None and '\n'.join(COMBO_DOCKER[group['docker']]),
+                                     'wrongly_hidden': [e for e in exp if e not in got][:8], 'wrongly_shown': [e for e in got if e not in exp][:8]})
+                else:
+                    r.update(status='ok', sig=('combo', len(exp)))
+                outs.append(r)
+    finally:
+        env.rmtree(holder)
+    return outs
 
 
 def single(case):
+    if case.get('tool') == 'combo':
+        return {'tool': 'combo', 'hg': case['hg'], 'docker': case['docker'], 'git': case['git']}
     return {'tool': case['tool'], 'lists': [case['list']], 'only': case['cfg']}
 
 
@@ -214,6 +289,8 @@ FILE = {'git': '.gitignore', 'docker': '.dockerignore', 'hg': '.hgignore'}
 
 
 def eval_group(env, group, tier):
+    if group['tool'] == 'combo':
+        return eval_combo(env, group)
     tool = group['tool']
     holder = env.newdir('c20')
     repo = os.path.join(holder, 'repo')        # reached through a name that is full of regex metacharacters
